@@ -117,7 +117,7 @@ pub fn check(case: &Case, st: &mut Stats) -> Result<(), Violation> {
             if !(d <= TOL) {
                 return Err(fail(
                     format!(
-                        "pixel {:?} component {}: got {:e}, H.273 gives {:e} (|diff| {:e} > {:e}) cfg {:?}",
+                        "pixel {:?} component {}: got {:e}, H.273 gives {:e} (|diff| {:e} > {:e}) cfg {}",
                         code, j, got[j], want[j], d, TOL, cfg_json(c)
                     ),
                     &[*code],
